@@ -197,6 +197,16 @@ def elementary_params(draw, kind, wide=False):
     c = lambda lim=5.0: draw(coord(lim, wide))  # noqa: E731
     r = lambda lo=0.3, hi=4.0: draw(length(lo, hi, wide))  # noqa: E731
     if kind == 'p':
+        if draw(st.integers(0, 3)) == 0:
+            # almost, but not exactly, normal to a coordinate axis
+            ax = draw(st.integers(0, 2))
+            n = [0.0, 0.0, 0.0]
+            n[ax] = draw(st.sampled_from([1.0, 1.0, -1.0, 2.0]))
+            tilt = draw(st.sampled_from([3e-3, 1e-3, 1e-4, 1e-5]))
+            n[(ax + 1) % 3] = tilt * draw(st.sampled_from([1.0, -1.0, 0.0]))
+            n[(ax + 2) % 3] = tilt * draw(st.sampled_from([1.0, -1.0]))
+            labels.append('p:near-axis')
+            return 'p', n + [c()], labels
         while True:
             n = [draw(coord(3.0)) for _ in range(3)]
             if any(n):
